@@ -446,21 +446,32 @@ EXTRA = {
            'laid-out arrays in every aliasing pattern with arbitrary old '
            'output, where= masks treated as possibly false (R4L); copy() owns '
            'its buffer in every layout (R5L); the scalars reaching _lincomb '
-           'keep their type (R4t).',
+           'keep their type (R4t); R4L also runs through the '
+           'DiscretizedSpace wrappers.',
     'C03': ' Evaluated tier R11: about 410 operator / functional instances '
            'on model spaces are called out of place (input untouched) and in '
            'place on an output holding arbitrary symbols (same object, the '
-           'out-of-place values, input untouched), with views modelled.',
+           'out-of-place values, input untouched), with views modelled; '
+           'the operators returned as adjoints (closure classes such as '
+           'the resizing adjoint) are called the same way; affine finite-'
+           'difference operators and resizing operators are among the '
+           'instances.',
     'C05': ' The evaluated tier R8 covers default, product-space, tensor '
            '(matrix, sampling, flattening, pointwise inner) and finite-'
            'difference operators on weighted / complex / discretized model '
            'spaces, plus adjoint.adjoint; weighted-space defects are known '
-           'findings.',
+           'findings.  Short axes (2, 3 points) for every finite-difference '
+           'method / padding, power spaces of length one and two, resizing '
+           'operators for every pad mode.',
     'C04': ' Functional arithmetic (scalings, sums, translations) is '
            'normalised like operator arithmetic.',
     'C06': ' Evaluated tier R8: derivative(x)(d) of nonlinear built-ins, '
            'arithmetic on them and block operators equals the symbolic '
-           'differential of the evaluated A(x) on weighted model spaces.',
+           'differential of the evaluated A(x) on weighted model spaces; a '
+           'derivative stays the derivative at its point when the operator '
+           'is evaluated / differentiated elsewhere in between; affine '
+           'finite-difference operators; compositions with a user '
+           'temporary.',
     'C07': ' Evaluated tier R6: concrete proximals at designated points '
            'satisfy the first-order optimality condition of the proximal '
            'problem (sub-gradient intervals at kinks, normal cones for '
@@ -475,34 +486,61 @@ EXTRA = {
            'biconjugate values and the Moreau decomposition of concrete '
            'functionals at designated points on weighted model spaces '
            '(76 instances incl. norms / dual unit balls, group and nuclear '
-           'norms), plus the Fenchel-Young inequality at y = g/2, 2g.',
+           'norms), plus the Fenchel-Young inequality at y = g/2, 2g; the '
+           'Moreau clause also with both proximals applied in place; '
+           'translated functionals whose conjugate is a derived functional; '
+           'Kullback-Leibler with a prior that has zeros.',
     'C10': ' Evaluated tier R3: proximals and default operators called '
-           'with out aliased to the input on model spaces.',
+           'with out aliased to the input on model spaces, after a first '
+           'aliased call of the same operator instance at another point.',
     'C09': ' Evaluated tier R6: gradient(x) and derivative(x)(d) of concrete '
            'and derived functionals equal the symbolic differential of the '
-           'evaluated value divided by the weights.',
-    'C11': ' Resumption also with in-place projections.',
+           'evaluated value divided by the weights (Huber at generic points '
+           'of a region decided at a designated numeric point).  R3e: every '
+           'declared finite Lipschitz bound is tested against difference '
+           'quotients of the evaluated gradient at numeric point pairs on '
+           'three scales (refutation only).',
+    'C11': ' Resumption also with in-place projections; inputs other than '
+           'the iterate are unchanged after a run (R2i); R5: the premise of '
+           'R1 that prox(v, out=v) equals prox(v) is discharged on the '
+           'library\'s proximals (evaluated aliased calls).',
     'C12': ' R6: a point satisfying the optimality conditions (rewrite '
            'axioms on the proximal symbols) is returned unchanged by PDHG, '
            'Douglas-Rachford, forward-backward and proximal gradient '
            'methods after 1-3 iterations (relaxation lam != 1 included); R7: '
            'the random-order Kaczmarz variant pairs every operator with its '
-           'own relaxation parameter and right-hand side.',
+           'own relaxation parameter and right-hand side.  R8: CG / CGN / '
+           'Landweber on data scaled by eps -> 0+ and eps -> inf.  R9: after '
+           'n iterations the caller\'s x holds the iterate of the n-th '
+           'iteration.  R4b: the power method\'s stagnation test compares '
+           'consecutive values of the returned estimate.',
+    'C13': ' Evaluated tier: the four operator classes are instantiated on '
+           'a 4 x 3 model space with symbolic cell sides; values = reference '
+           'stencil / cell side (R6), derivative = exact difference of the '
+           'affine map (R7), adjoint of the linear part incl. affine and '
+           'mixed-precision variants (R8); np.allclose on non-identical '
+           'operands explored with both outcomes.',
     'C14': ' uniform_partition_fromgrid is evaluated for all 64 forms of the '
            'limit arguments on a 2-d grid; the index normaliser is interpreted '
            'on every slice form (R3b).',
     'C15': ' The dtype rule also runs through the public factories and '
            'tracks fractional information through casts; complex constant '
-           'callables; element() owns its data (R4c).',
+           'callables; element() owns its data (R4c); R1L: the interpolators '
+           'on value arrays in Fortran memory order.',
     'C16': ' Mixed grow / shrink shapes in the n-d rule; _offset_from_spaces '
            'evaluated on 81 two-dimensional pairs with signed offsets; axes '
-           'that keep their size with non-zero offset.',
+           'that keep their size with non-zero offset.  R2s: zero, constant '
+           'and one-hot inputs give the value of the extracted affine map '
+           'and leave the input array unchanged.',
     'C17': ' Two-output ufuncs with different output dtypes and nested '
            'power-space broadcasting of the legacy wrappers are included; '
            'the dtype keyword of the legacy reductions.',
     'C18': ' The per-axis pre-processing factors are evaluated for every '
            'shift pattern (R2b); the planner rule follows destroyed arrays '
-           '(R5); wavelet adjoint scaling for every axes subset (R9).',
+           '(R5); wavelet adjoint scaling for every axes subset (R9); '
+           'complex conjugation over the kernel symbols and unshifted axes '
+           'in R3; R3p: a plan made by init_fftw_plan uses the direction / '
+           'halfcomplex / axes of the call.',
     'C19': ' The default surface normal is evaluated on generic tangents '
            '(R8); off-centre volumes among the coverage witnesses.',
     'C20': ' TensorSpace._astype is evaluated over weighting kinds, '
